@@ -15,6 +15,7 @@ mod c11;
 mod c12;
 mod c14;
 mod c15;
+mod c17;
 mod c18;
 
 fn main() {
@@ -44,9 +45,11 @@ fn main() {
         "bar_hidden" => bar::bar_hidden(rest),
         "multi_order" => bar::multi_order(rest),
         "multi_finish" => bar::multi_finish(rest),
+        "iter_adaptors" => c17::iter_adaptors(rest),
         "est_decay" => c09::est_decay(rest),
         "est_laws" => c09::est_laws(rest),
         "render_keys" => c11::render_keys(rest),
+        "bar_cells" => c11::bar_cells(rest),
         "render_wide" => c11::render_wide(rest),
         "render_lines" => c11::render_lines(rest),
         "template_total" => c10::template_total(rest),
